@@ -14,6 +14,12 @@ EXTENDS StoreRef, Json
 
 VARIABLES hist, done
 
+(* Operation mix; configurations may substitute another one (Classes <- ...). *)
+ClassesCleanup == <<"write", "write", "write", "store", "read", "read", "delete", "expireall",
+                    "tick", "tick", "tick", "tick", "cleanup", "cleanup", "cleanup", "len">>
+ClassesEvict   == <<"write", "write", "write", "write", "write", "store", "read", "read", "read", "read",
+                    "load", "delete", "tick", "tick", "cleanup", "cleanup", "cleanup", "expireall">>
+
 Classes == <<"write", "write", "write", "write", "store",
              "read", "read", "read", "read", "load",
              "delete", "delete", "expireall", "deleteall",
